@@ -52,6 +52,9 @@ func (m *c05m) viol(op, pattern, what string, extra map[string]any) {
 // verify compares every live variable with the reference snapshots after a step.
 // rp/rs: index of the point/scalar slot that was written (-1 none); ret: returned value encoding (nil if none).
 func (m *c05m) verify(op, pattern string, rp, rs int, ret []byte) {
+	if ok, which := m.g.ConstantsIntact(); !ok {
+		m.viol(op, pattern, "library-constant-changed", map[string]any{"constant": which, "note": "a step of this (or a concurrently running) program corrupted state shared by all values of the group; the reference machine cannot be trusted from here on"})
+	}
 	for i, p := range m.pv {
 		e := groups.Enc(p)
 		if !bytes.Equal(e, m.pe[i]) {
